@@ -162,7 +162,9 @@ def element(draw, depth, scope, allow_metal_slot=False):
             tal[key] = mode + draw(expr(sc))
     if "attributes" in cmds:
         cl = []
-        for an in draw(st.lists(st.sampled_from(["class", "title", "href", "data-y", "alt"]), min_size=1, max_size=2, unique=True)):
+        # (half of the names are attributes the element has itself: `default` then means its own value)
+        own = [a[0] for a in attrs]
+        for an in draw(st.lists(st.sampled_from((own * 2 if own else []) + ["class", "title", "href", "data-y", "alt"]), min_size=1, max_size=2, unique=True)):
             if sc.get("vars") and draw(st.booleans()):
                 # value for some iterations, default / nothing for others: per-iteration attribute state
                 cl.append("%s %s/k_opt | %s" % (an, sc["vars"][-1], draw(st.sampled_from(["default", "nothing"]))))
